@@ -23,4 +23,21 @@ def m1 : Mesh :=
   { region := { pmin := [0, 0, 0], pmax := [1, 1, 1], dims := ["x", "y", "z"], units := ["m", "m", "m"], tol := 1 / 1000000000000 },
     n := [1, 1, 1], bc := "", subs := [] }
 
+/-- a non-uniform 3-component field on `mEx` (cell `(i, j)` holds `(i, j+1, 2)`), components `x, y`
+mapped to the mesh axes `x, y` -/
+def fQ : Fld :=
+  { mesh := mEx, nvdim := 3, data := ⟨[4, 3], fun i => [(i.getD 0 0 : Rat), (i.getD 1 0 : Rat) + 1, 2]⟩,
+    valid := NDA.const [4, 3] true, vdims := some ["x", "y", "z"], vmap := [("x", "x"), ("y", "y")], unit := none }
+
+/-- a 3-d mesh of 2 × 1 × 2 cells with edges 1, 2, 1/2 -/
+def m3 : Mesh :=
+  { region := { pmin := [0, 0, 0], pmax := [2, 2, 1], dims := ["x", "y", "z"], units := ["m", "m", "m"], tol := 1 / 1000000000000 },
+    n := [2, 1, 2], bc := "", subs := [] }
+
+/-- a non-uniform 3-component field on `m3` -/
+def f3 : Fld :=
+  { mesh := m3, nvdim := 3, data := ⟨[2, 1, 2], fun i => [(i.getD 0 0 : Rat) + 1, (i.getD 2 0 : Rat), 2]⟩,
+    valid := NDA.const [2, 1, 2] true, vdims := some ["x", "y", "z"],
+    vmap := [("x", "x"), ("y", "y"), ("z", "z")], unit := none }
+
 end DFV.C19
